@@ -407,10 +407,23 @@ NP_FUNCS = {'clip': np_clip, 'any': np_any, 'all': np_all, 'abs': np_abs, 'absol
             'shape': np_shape, 'size': np_size}
 
 
+def np_prod(interp, args, kwargs, node):
+    """numpy.prod of a tuple/list of plain integers (shape arithmetic)"""
+    v = args[0]
+    if isinstance(v, (tuple, list)) and all(isinstance(x, int) and not isinstance(x, bool) for x in v) and not kwargs and len(args) == 1:
+        out = 1
+        for x in v:
+            out *= x
+        return out
+    raise Unsupported("numpy.prod of this operand")
+
+
 def module_attr(interp, mod, attr, node):
     if mod.name == 'numpy':
         if attr in NP_FUNCS:
             return BuiltinV('numpy.' + attr, NP_FUNCS[attr])
+        if attr == 'prod':
+            return BuiltinV('numpy.prod', np_prod)
         if attr == 'ndarray':
             return TypeMarker('ndarray')
         if attr == 'linalg':
